@@ -175,6 +175,16 @@ func scnRtuFlips(o *Out, r *Rng, thorough bool) {
 			c[len(c)-1], c[len(c)-2] = byte(r.U64()), byte(r.U64())
 			emit(unit, e, w, c, v2, op, "crcfield")
 		}
+		// structured CRC fields: the two bytes exchanged, complemented, duplicated, zero, big-endian of the sum
+		lo, hi := v[len(v)-2], v[len(v)-1]
+		for _, t := range [][2]byte{{hi, lo}, {^lo, ^hi}, {lo, lo}, {hi, hi}, {0, 0}, {0xff, 0xff}, {lo ^ 0x80, hi}, {lo, hi ^ 1}} {
+			if t[0] == lo && t[1] == hi {
+				continue
+			}
+			c := append([]byte(nil), v...)
+			c[len(c)-2], c[len(c)-1] = t[0], t[1]
+			emit(unit, e, w, c, v2, op, "crcfield-structured")
+		}
 	}
 	// the F8 family: a prefix of the corrupted reply is itself a CRC-valid frame
 	for _, unit := range []int{1, 17} {
